@@ -52,6 +52,9 @@ CLAIMS = {
     "C07": ("property-based testing (rapid) against a reference model of the effective schema (own dependent-body selection and overlay on the serialisable model); acceptance relation by applying candidates and re-validating",
             "Generated schema/configuration pairs with sprinkled blank lines and half-typed names; every cursor is classified on the parser AST and the ordered candidate list is compared with the model (attributes, count/for_each, block types still declarable with the typed prefix; dependent-body label values inside completable labels). Sampled candidates are applied and the file re-validated.",
             "4/C07", TRUST + " Exactness is judged only where error recovery cannot have reshaped the body (parse errors tolerated on the cursor line and on lone-identifier lines); `dynamic` and the any-attribute placeholder are don't-care."),
+    "C16": ("property-based testing (rapid): permutation/collision relations on schema keys; constructed dependent-body scenarios with a marker per body and cross-feature agreement",
+            "Key level: NewSchemaKey is compared across permutations and across different key sets (canonical form computed by the harness). Feature level: for a constructed block with dependent bodies registered under permuted key sets and an instance written to select one, hover, tokens, validation, targets, origins, completion and links must all reflect exactly the body the reference model (and the construction) selects.",
+            "4/C16", TRUST + " Two-step (second-level) selection is covered through the general generator by C07/C12/C13/C15."),
 }
 
 def main():
